@@ -183,6 +183,8 @@ Definition with_closed (s : rstate) : rstate :=
   mk_rstate (r_epoch s) (r_cur s) (r_old s) (r_wins s) (r_high s) (r_queue s) (r_cid s) (r_cidneg s) (r_rrc s) true.
 Definition with_epoch (s : rstate) (e : N) : rstate :=
   mk_rstate e (r_cur s) (r_old s) (r_wins s) (r_high s) (r_queue s) (r_cid s) (r_cidneg s) (r_rrc s) (r_closed s).
+Definition with_ext (s : rstate) (cid : bytes) (neg rrc : bool) : rstate :=
+  mk_rstate (r_epoch s) (r_cur s) (r_old s) (r_wins s) (r_high s) (r_queue s) cid neg rrc (r_closed s).
 
 Definition mem_N (e : N) (l : list N) : bool := existsb (N.eqb e) l.
 
@@ -253,13 +255,30 @@ Definition decode_content (t : N) (body : bytes) : content :=
   else if t =? 27 then (if rrc_ok body then CRrc else CBad)
   else CBad.
 
+(* FragmentBuffer.Push / pushHandshakeFragments on the body of a handshake record: a sequence of
+   12-byte handshake headers each followed by fragment_length bytes (an empty body is accepted) *)
+Fixpoint hs_frags_ok (fuel : nat) (b : bytes) : bool :=
+  match b with
+  | [] => true
+  | _ :: _ =>
+      match fuel with
+      | O => false
+      | S fuel' =>
+          if (length b <? 12)%nat then false else
+          let n := (12 + N.to_nat (be_dec (firstn 3 (skipn 9 b))))%nat in
+          if (length b <? n)%nat then false else hs_frags_ok fuel' (skipn n b)
+      end
+  end.
+
 Section Model.
   (* record-number mask of generation (epoch) e for an encrypted record: uint16(mask[0])<<8|mask[1] *)
   Variable snmask : N -> bytes -> N.
   (* AEAD open of generation e with the nonce built from the 64-bit record number, additional data, ciphertext *)
   Variable aopen : N -> N -> bytes -> bytes -> option bytes.
-  (* FragmentBuffer.Push accepts the handshake record body (C12's subject; state of that buffer is not modelled here) *)
-  Variable hs_ok : bytes -> bool.
+  (* the reassembly buffer has room for this handshake record (fragmentBufferMaxSize / MaxCount;
+     C12's subject, the state of that buffer is not modelled here) *)
+  Variable hs_room : bytes -> bool.
+  Definition hs_ok (body : bytes) : bool := hs_frags_ok (length body) body && hs_room body.
 
   (* ciphertextCIDPolicy: (expected, allowed) *)
   Definition cid_policy (s : rstate) : bool * bool :=
@@ -478,6 +497,7 @@ Section Model.
   | Arrive (d : bytes)       (* a datagram read from the socket *)
   | InstallRead (e : N)      (* TrafficKeys.Install(nil, generation of epoch e): handshake keys, application keys, received KeyUpdate *)
   | SetRemoteEpoch (e : N)
+  | SetExt (cid : bytes) (neg rrc : bool)   (* CommitNegotiatedExtensions: connection id expected on inbound records, RRC *)
   | Drain.                   (* handleQueuedPackets *)
 
   Definition step (W : nat) (s : rstate) (o : op) : rstate * list out :=
@@ -485,6 +505,7 @@ Section Model.
     | Arrive d => recv13 W s d
     | InstallRead e => (install_read s e, [])
     | SetRemoteEpoch e => (with_epoch s e, [])
+    | SetExt cid neg rrc => (with_ext s cid neg rrc, [])
     | Drain => if r_closed s then (s, []) else recv_list W false (with_queue s []) (r_queue s)
     end.
 
